@@ -934,6 +934,11 @@ def block_level_page_break(sibling_before, sibling_after):
                 ('avoid-page', 'auto'),
                 ('avoid-column', 'auto')):
             result = value
+        elif value != result and (
+                value in ('avoid', 'avoid-page', 'avoid-column') and
+                result in ('avoid', 'avoid-page', 'avoid-column')):
+            # Different kinds of breaks are avoided at the same point
+            result = 'avoid'
 
     return result
 
